@@ -910,20 +910,29 @@ def write_if_changed(path, text):
 	return True
 
 
+STUB = '(* GENERATED by tools/pyx2v.py: TRANSLATION FAILED (fail closed), this file does not compile on purpose.\n   %s *)\nTranslation_failed.\n'
+
+
 def main(argv):
 	src, out = argv[1], argv[2]
-	try:
-		check_kmers_pxd(os.path.join(src, 'kmers.pxd'))
-		kmers = translate_file(os.path.join(src, 'kmers.pyx'))
-		metric = translate_file(os.path.join(src, 'metric.pyx'), parse_types_pxd(os.path.join(src, 'types.pxd')))
-	except (Unsupported, SyntaxError, OSError) as e:
-		print(f'pyx2v: translation failed (fail closed): {e}', file=sys.stderr)
-		return 3
 	os.makedirs(out, exist_ok=True)
-	ch1 = write_if_changed(os.path.join(out, 'KmersPyx.v'), kmers)
-	ch2 = write_if_changed(os.path.join(out, 'MetricPyx.v'), metric)
-	print(f'pyx2v: KmersPyx.v {"updated" if ch1 else "unchanged"}, MetricPyx.v {"updated" if ch2 else "unchanged"}')
-	return 0
+	rc = 0
+	# the two kernels are translated independently: a source that leaves the subset gets a stub that does not
+	# compile, so exactly the theorems and model entry points that depend on it are lost
+	jobs = [('KmersPyx.v', lambda: (check_kmers_pxd(os.path.join(src, 'kmers.pxd')), translate_file(os.path.join(src, 'kmers.pyx')))[1]),
+	        ('MetricPyx.v', lambda: translate_file(os.path.join(src, 'metric.pyx'), parse_types_pxd(os.path.join(src, 'types.pxd'))))]
+	msgs = []
+	for name, job in jobs:
+		try:
+			text = job()
+		except (Unsupported, SyntaxError, OSError) as e:
+			print(f'pyx2v: {name}: translation failed (fail closed): {e}', file=sys.stderr)
+			text = STUB % str(e).replace('*)', '* )')
+			rc = 3
+		ch = write_if_changed(os.path.join(out, name), text)
+		msgs.append(f'{name} {"updated" if ch else "unchanged"}')
+	print('pyx2v: ' + ', '.join(msgs))
+	return rc
 
 
 if __name__ == '__main__':
